@@ -54,6 +54,8 @@ class Work:
             for root, _, files in os.walk(hooks):
                 rel = os.path.relpath(root, hooks)
                 for f in files:
+                    if not f.endswith(".go"):
+                        continue
                     dst = os.path.join(self.repo, rel)
                     if not os.path.isdir(dst):
                         self.hook_errors.append("hook target directory missing: " + rel)
@@ -61,6 +63,25 @@ class Work:
                     shutil.copy(os.path.join(root, f), os.path.join(dst, f))
         shutil.copytree(os.path.join(VERIF, "harness"), os.path.join(self.repo, "zzverif"))
         self.built = {}
+        self.blackbox = False      # True once the white-box hooks had to be replaced by their stubs
+        self.hook_log = ""
+
+    def use_stub_hooks(self):
+        """Replace every overlaid hook file that has a sibling `<name>.go.stub` in /verif/hooks by that stub
+        (same exported API, no access to unexported state). Returns True if at least one stub was installed."""
+        hooks = os.path.join(VERIF, "hooks")
+        n = 0
+        for root, _, files in os.walk(hooks):
+            rel = os.path.relpath(root, hooks)
+            for f in files:
+                if f.endswith(".go.stub"):
+                    dst = os.path.join(self.repo, rel, f[:-5])
+                    if os.path.isdir(os.path.dirname(dst)):
+                        shutil.copy(os.path.join(root, f), dst)
+                        n += 1
+        self.blackbox = n > 0
+        self.built = {}
+        return n > 0
 
     def build(self, name, race=False):
         """go build the harness command zzverif/<name> against the scratch copy."""
@@ -70,6 +91,13 @@ class Work:
         out = os.path.join(self.bin, name + ("-race" if race else ""))
         cmd = ["go", "build", "-tags", "verif"] + (["-race"] if race else []) + ["-o", out, "./zzverif/" + name]
         rc, log = sh(cmd, cwd=self.repo, env=GOENV, timeout=600)
+        if rc != 0 and not self.blackbox:
+            # a hook may no longer compile against an edited tree: fall back to the black-box stubs
+            self.hook_log = log
+            if self.use_stub_hooks():
+                rc, log = sh(cmd, cwd=self.repo, env=GOENV, timeout=600)
+                if rc != 0:
+                    log = self.hook_log + "\n--- with stub hooks ---\n" + log
         res = (out, None) if rc == 0 else (None, log)
         self.built[key] = res
         return res
